@@ -107,20 +107,32 @@ def check_tree(tree):
     from xdsl.context import Context
 
     tree = _t(tree)
+
+    def crashed(stage, ex):
+        # every divisor of a generated tree is a positive constant: no operation on it may raise (ZeroDivisionError, AssertionError, ...)
+        return {"tree": tree, "stage": stage, "raised": repr(ex)[:200], "key": f"C26/{stage}"}
+
     try:
         e = build(tree)
     except NotImplementedError:
         return None  # semi-affine: outside the supported (and stated) domain
+    except Exception as ex:  # noqa: BLE001
+        return crashed("build", ex)
     stages = {"build": e}
     try:
         stages["simplify"] = e.simplify(2, 1)
     except NotImplementedError:
         pass
+    except Exception as ex:  # noqa: BLE001
+        return crashed("simplify", ex)
     # replace dims/symbols and compose with a map: d0 -> d1 + 1, d1 -> d0 * 2, s0 -> s0
     nd = [AffineExpr.dimension(1) + 1, AffineExpr.dimension(0) * 2]
     ns = [AffineExpr.symbol(0)]
-    repl = e.replace_dims_and_symbols(nd, ns)
-    comp = e.compose(AffineMap(2, 1, tuple(nd)))
+    try:
+        repl = e.replace_dims_and_symbols(nd, ns)
+        comp = e.compose(AffineMap(2, 1, tuple(nd)))
+    except Exception as ex:  # noqa: BLE001
+        return crashed("replace_dims_and_symbols", ex)
     # print / re-parse through an affine map
     m = AffineMap(2, 1, (e,))
     text = str(m)
@@ -138,12 +150,18 @@ def check_tree(tree):
     for (d0, d1, s0) in ENVS:
         exp = ref_eval(tree, d0, d1, s0)
         for name, x in stages.items():
-            got = x.eval([d0, d1], [s0])
+            try:
+                got = x.eval([d0, d1], [s0])
+            except Exception as ex:  # noqa: BLE001
+                return crashed(name, ex)
             if got != exp:
                 return {"tree": tree, "stage": name, "expr": str(x), "env (d0,d1,s0)": (d0, d1, s0), "eval": got, "expected": exp, "key": f"C26/{name}"}
         exp2 = ref_eval(tree, d1 + 1, d0 * 2, s0)
         for name, x in (("replace_dims_and_symbols", repl), ("compose", comp)):
-            got = x.eval([d0, d1], [s0])
+            try:
+                got = x.eval([d0, d1], [s0])
+            except Exception as ex:  # noqa: BLE001
+                return crashed(name, ex)
             if got != exp2:
                 return {"tree": tree, "stage": name, "expr": str(x), "env (d0,d1,s0)": (d0, d1, s0), "eval": got, "expected": exp2, "key": f"C26/{name}"}
     return None
